@@ -402,48 +402,69 @@ def run_plans(exe, plans):
     return got
 
 
+SLICE = 40000
+
+
+class Repeat:
+    """the list `base` repeated `times` times, without copying"""
+
+    def __init__(self, base, times):
+        self.base, self.times = base, times
+
+    def __len__(self):
+        return len(self.base) * self.times
+
+    def __getitem__(self, n):
+        return self.base[n % len(self.base)]
+
+
 def replay(ctx, cat, exe, hists, tag, bind_of, every_step_of=None):
-    """hists: list of TLC records {h: [...]}.  bind_of(n) -> Binding."""
-    plans = []
+    """hists: list of TLC records {h: [...]}.  bind_of(n) -> Binding.  Works through the list in slices
+    (the command lists of several 100k histories do not fit in memory at once) and releases the records."""
     base = os.path.join(vlib.SCRATCH, "c17-%d-%s" % (os.getpid(), tag))
-    for n, hist in enumerate(hists):
-        if not hist["h"]:
-            continue
-        pm = PATHMAPS[(n // 2) % len(PATHMAPS)]
-        nm = NAMEMAPS[(n // 5) % len(NAMEMAPS)]
-        via = "g" if (n // 3) % 2 == 0 else "r"
-        every = True if every_step_of is None else every_step_of(n)
-        plans.append(Plan(n, hist, bind_of(n), pm, nm, via, every, "%s-%d.h5" % (base, n % NCHUNK)))
-    chunks = [[] for _ in range(NCHUNK)]
-    for pl in plans:
-        chunks[pl.hid % NCHUNK].append(pl)
-
-    def work(chunk):
-        return run_plans(exe, chunk)
-
-    with ThreadPoolExecutor(NCHUNK) as ex:
-        outs = list(ex.map(work, chunks))
     stats = {"ok": 0, "viol": 0, "branch": 0}
-    nv0, nk0 = len(ctx.violations), len(ctx.known_hit)
-    for chunk, got in zip(chunks, outs):
-        for pl in chunk:
-            ctx.traces += 1
-            out, crash = got[pl.hid]
-            if crash is None and len(out) != len(pl.cmds):
-                raise vlib.InfraError("driver output incomplete for history %d (%s)" % (pl.hid, tag))
-            v = judge(ctx, cat, pl, out, crash)
-            stats[v] += 1
-            ctx.count(len(pl.cmds))
-            for st in pl.hist["h"]:
-                if st["a"] == "write":
-                    k, ix = pl.bind.val(st["v"])
-                    ctx.nontriv((k, ix, st["res"]))
+    nv0 = len(ctx.violations)
+    total = 0
+    for lo in range(0, len(hists), SLICE):
+        plans = []
+        for n in range(lo, min(lo + SLICE, len(hists))):
+            hist = hists[n]
+            if not hist["h"]:
+                continue
+            pm = PATHMAPS[(n // 2) % len(PATHMAPS)]
+            nm = NAMEMAPS[(n // 5) % len(NAMEMAPS)]
+            via = "g" if (n // 3) % 2 == 0 else "r"
+            every = True if every_step_of is None else every_step_of(n)
+            plans.append(Plan(n, hist, bind_of(n), pm, nm, via, every, "%s-%d.h5" % (base, n % NCHUNK)))
+        chunks = [[] for _ in range(NCHUNK)]
+        for pl in plans:
+            chunks[pl.hid % NCHUNK].append(pl)
+        with ThreadPoolExecutor(NCHUNK) as ex:
+            outs = list(ex.map(lambda ch: run_plans(exe, ch), chunks))
+        for chunk, got in zip(chunks, outs):
+            for pl in chunk:
+                ctx.traces += 1
+                out, crash = got[pl.hid]
+                if crash is None and len(out) != len(pl.cmds):
+                    raise vlib.InfraError("driver output incomplete for history %d (%s)" % (pl.hid, tag))
+                v = judge(ctx, cat, pl, out, crash)
+                stats[v] += 1
+                ctx.count(len(pl.cmds))
+                for st in pl.hist["h"]:
+                    if st["a"] == "write":
+                        k, ix = pl.bind.val(st["v"])
+                        ctx.nontriv((k, ix, st["res"]))
+        total += len(plans)
+        del plans, chunks, outs
+        if isinstance(hists, list):
+            for n in range(lo, min(lo + SLICE, len(hists))):
+                hists[n] = None
     for i in range(NCHUNK):
         try:
             os.remove("%s-%d.h5" % (base, i))
         except OSError:
             pass
-    vlib.log("%s: %d histories replayed (%s)" % (tag, len(plans), stats))
+    vlib.log("%s: %d histories replayed (%s)" % (tag, total, stats))
     for v in ctx.violations[nv0:]:
         vlib.log("   violation key %s" % v[0])
     return stats
@@ -631,7 +652,7 @@ def run(ctx):
     hs = res.records
     if len(hs) == 0:
         raise vlib.InfraError("no histories exported by " + mod)
-    big = [dict(h) for _ in range(len(A)) for h in hs]
+    big = Repeat(hs, len(A))
     replay(ctx, cat, exe, big, "pairs", lambda n: Binding(cat, n // len(hs), A, B, C),
            every_step_of=lambda n: True)
     ctx.sample({"pairs_history": hs[len(hs) // 2], "bound_to_each_of": "%d ordered value pairs" % len(A)})
@@ -640,14 +661,14 @@ def run(ctx):
     for mod, what in ([("MCQuickA", "depth 4"), ("MCQuickB", "depth 5, fewer ids")] if quick else
                       [("MCQuickA", "depth 4"), ("MCThoroughA", "depth 5"), ("MCQuickB", "depth 5, fewer ids")]):
         res = tlc(mod, "Checkpoint histories " + what)
-        replay(ctx, cat, exe, res.records, mod, lambda n: Binding(cat, n + off, A, B, C))
         if res.records:
             ctx.sample({"history": res.records[len(res.records) // 3]})
+        replay(ctx, cat, exe, res.records, mod, lambda n: Binding(cat, n + off, A, B, C))
 
     # ---- 3. rewriting a name with another kind (lenient reading, see Checkpoint.tla) -------------
     res = tlc("MCCross", "Checkpoint histories with kind changes")
     reps = 6 if quick else 40
-    big = [dict(h) for _ in range(reps) for h in res.records]
+    big = Repeat(res.records, reps)
     st = replay(ctx, cat, exe, big, "cross", lambda n: Binding(cat, (n // max(1, len(res.records))) * 37 + n + off, A, B, C))
     ctx.extra["cross_kind_branches_not_taken"] = st["branch"]
 
@@ -655,10 +676,10 @@ def run(ctx):
     nsim = 60 if quick else 1500
     res = tlc("MCSim", "Checkpoint simulation", simulate=nsim, depth=12, workers=4, seed=ctx.seed)
     # (half of them observed only at the end: intermediate fresh readers must not be what keeps the file right)
-    replay(ctx, cat, exe, res.records, "sim", lambda n: Binding(cat, n * 11 + off, A, B, C),
-           every_step_of=lambda n: n % 2 == 0)
     if res.records:
         ctx.sample({"simulated_history": res.records[-1]})
+    replay(ctx, cat, exe, res.records, "sim", lambda n: Binding(cat, n * 11 + off, A, B, C),
+           every_step_of=lambda n: n % 2 == 0)
 
     # ---- 5. random runs of the real code validated by TLC ---------------------------------------
     header, execs = random_runs(ctx, cat, exe, 120 if quick else 1500, 40, rng)
